@@ -454,6 +454,10 @@ def lattice(thorough):
                                 continue        # quick: every fs at nxseg 16; beyond, fs rotates over (overlap, length, references)
                             for method in ("per", "cor"):
                                 out.append((len(out), n_all, refs, nxseg, pov, nseg, fs, method))
+            # one LONG record per estimator (channels x references x samples above 2**22): record length is part of the quantifier
+            if n_all == 4 and refs == [0, 1, 2, 3] and not any(c[1] == 4 and c[5] > 4000 for c in out):
+                out.append((len(out), 4, refs, 64, 0.5, 4100, 1.0, "per"))
+                out.append((len(out), 4, refs, 64, 0.5, 4100, 1.0, "cor"))
             # decimal overlap fractions on segment lengths that are not powers of two (nxseg*pov is an integer, but 1 - pov is not
             # exactly representable: a hop computed as int(nxseg*(1-pov)) would be one sample short)
             if n_all <= (4 if thorough else 3):
@@ -488,6 +492,9 @@ def delay_lattice(thorough):
                             for method in ("per", "cor"):
                                 for (n, s, c) in (places if nxseg <= 256 else places[1:3]):
                                     out.append((len(out), n, s, c, nxseg, d, g, pov, nseg, fs, method))
+    # one long record per estimator (3 x 3 x 480 000 samples > 2**22)
+    for method in ("per", "cor"):
+        out.append((len(out), 3, 0, 2, 64, 1, -10.0, 0.0, 7500, 100.0, method))
     return out
 
 
